@@ -274,7 +274,7 @@ func init() {
 	core.Register(&core.Check{
 		ID: "C06", Level: "model_checking", Run: c06Run, Replay: c06Replay,
 		Added:       "float-tie inputs (balance, weights, group weights with 15 digits), deep-diamond include tree, 40-account infer tie; binary runs alternate GOMAXPROCS over {all, 1, 2, 4}",
-		QuickBudget: 140 * time.Second, ThoroughBudget: 14 * time.Minute,
+		QuickBudget: 200 * time.Second, ThoroughBudget: 14 * time.Minute,
 		Rule: "tie-rich inputs (equal-weight sibling accounts valued and unvalued, direct+indirect and two indirect price paths, same-day opens/prices/assertions/closes in three files, equally likely infer candidates, a revolut2 statement with three currencies on one day) x commands (balance text/csv/-a/-v/-m, portfolio weights, check --write, transcode, print, infer, import); " +
 			"for each input every execution within the deviation bounds over goroutine schedules AND map iteration orders (explorer-owned) is run, plus two global map-order policies; oracle: exactly one (stdout, exit) outcome; the real binary is also run repeatedly; non-trivial = inputs with more than one execution",
 		Assumptions: []string{"map orders inside third-party packages are not explored", "CPU count and timing are covered through the interleavings they induce (sequential consistency)"},
